@@ -120,7 +120,7 @@ mod vk_slice {
 
     // the same operations seen at the level of the std atomics (every atomic operation on the counter is logged, whatever
     // AtomicCounter method -- existing or new -- performed it)
-    // @harness name=slice_ops_std props=C01,C04,C05,C06,C09,C10,C11 kind=bounded bound="length <= 3; chunk size and every value read symbolic over the full usize domain"
+    // @harness name=slice_ops_std props=C01,C02,C04,C05,C06,C09,C10,C11 kind=bounded bound="length <= 3; chunk size and every value read symbolic over the full usize domain"
     #[kani::proof]
     #[kani::unwind(18)]
     #[kani::stub(std::sync::atomic::Atomic::<usize>::fetch_add, a_faa)]
@@ -135,9 +135,10 @@ mod vk_slice {
         let it = ConIterOfSlice::new(&data[..len]);
         st().loc_r = it.counter() as *const AtomicCounter as usize;
         let op: u8 = kani::any();
-        kani::assume(op < 6);
+        kani::assume(op < 8);
         let n: usize = kani::any();
         kani::cover!(op == 2, "buffered pull");
+        kani::cover!(op == 7, "for-loop adaptor");
         kani::cover!(op == 3, "skip");
         if op == 0 { let _ = it.next_id_and_value().map(|x| x.idx); chk_std_ops(0, 1, len); }
         else if op == 1 { let _ = it.next_chunk(n).map(|c| c.begin_idx); chk_std_ops(0, n, len); }
@@ -149,7 +150,17 @@ mod vk_slice {
             let h = it.has_more(); let k = remaining(last_load_ret(), len);
             assert!(h == if k == 0 { crate::HasMore::No } else { crate::HasMore::Yes(k) }, "[C11 C05 C06 std-more] has_more is No iff nothing remains, else Yes(remaining)");
         }
-        else { let s = it.into_seq_iter(); chk_std_ops(1, 0, len); std::mem::forget(s); }
+        else if op == 5 { let s = it.into_seq_iter(); chk_std_ops(1, 0, len); std::mem::forget(s); }
+        // the `for`-loop adaptors: each item they yield is one single pull of the shared iterator, made when it is asked for
+        else if op == 6 {
+            let r = it.values().next(); chk_std_ops(0, 1, len);
+            let b = first_write().ret;
+            match r { Some(v) => assert!(b < len && std::ptr::eq(v, &data[b]), "[C01 C02 C04 std-wrapper-values] values().next() yields the element at the position its own fetch_add(1) reserved"), None => assert!(b >= len, "[C01 C05 std-wrapper-none] None only when the reserved position is past the end") }
+        } else {
+            let r = it.ids_and_values().next(); chk_std_ops(0, 1, len);
+            let b = first_write().ret;
+            match r { Some((i, v)) => assert!(i == b && b < len && std::ptr::eq(v, &data[b]), "[C01 C02 C04 std-wrapper-ids] ids_and_values().next() yields (position, element) of the position its own fetch_add(1) reserved"), None => assert!(b >= len, "[C01 C05 std-wrapper-none] None only when the reserved position is past the end") }
+        }
     }
 
     // the `for`-loop adaptors values() / ids_and_values() driven through Iterator methods other than next()
